@@ -53,8 +53,6 @@ func (t *testSuffrageProof) prepare(point base.Point) {
 		previousHash = t.previous.Hash()
 	}
 
-	t.blockMap = t.newmap(t.point.Height(), t.Local)
-
 	var suffrageheight base.Height
 	if t.previous != nil {
 		suffrageheight = t.previous.Value().(base.SuffrageNodesStateValue).Height() + 1
@@ -84,13 +82,15 @@ func (t *testSuffrageProof) prepare(point base.Point) {
 	t.NoError(err)
 
 	t.proof, _ = tr.Proof(t.current.Hash().String())
+
+	t.blockMap = t.newmap(t.point.Height(), t.Local, tr.Root())
 }
 
 func (t *testSuffrageProof) newitem(ty base.BlockItemType) BlockMapItem {
 	return NewBlockMapItem(ty, util.UUID().String())
 }
 
-func (t *testSuffrageProof) newmap(height base.Height, local base.LocalNode) BlockMap {
+func (t *testSuffrageProof) newmap(height base.Height, local base.LocalNode, statesTree util.Hash) BlockMap {
 	m := NewBlockMap()
 
 	for _, i := range []base.BlockItemType{
@@ -105,6 +105,7 @@ func (t *testSuffrageProof) newmap(height base.Height, local base.LocalNode) Blo
 	}
 
 	manifest := base.NewDummyManifest(height, valuehash.RandomSHA256())
+	manifest.SetStatesTree(statesTree)
 	switch {
 	case t.previous == nil:
 		manifest.SetSuffrage(nil)
@@ -215,6 +216,17 @@ func (t *testSuffrageProof) TestProve() {
 		err := p.Prove(previous)
 		t.Error(err)
 		t.ErrorContains(err, "invalid previous state value")
+	})
+
+	t.Run("proof not from states tree of manifest", func() {
+		t.prepare(base.RawPoint(33, 0))
+
+		m := t.newmap(t.point.Height(), t.Local, valuehash.RandomSHA256())
+
+		p := NewSuffrageProof(m, t.current, t.proof)
+		err := p.Prove(t.previous)
+		t.Error(err)
+		t.ErrorContains(err, "root of proof does not match")
 	})
 
 	t.Run("genesis", func() {
